@@ -163,6 +163,12 @@ func VxH_C02_nested_padding() {
 	if len(pages) > 1 {
 		vx.Reach("split")
 	}
+	// C12: the section follows another block on the first page, so a break before it or between its
+	// children is always available: its border box (bottom padding and border included) stays
+	// above the bottom of that page
+	if sec := vxFind(pages[0], "section"); sec != nil {
+		vx.Assert("section-with-its-decoration-inside-the-first-page", float64(sec.BorderBoxY()+sec.BorderHeight()) <= 100+1e-3)
+	}
 }
 
 // a float taller than the page, with breakable content: what does not fit on the first page
